@@ -54,6 +54,9 @@ where
         let Some(val) = self.view.last() else { return };
         debug_assert!(val.is_finite(), "value must be finite");
 
+        if self.q_out.len() >= self.window_len {
+            self.q_out.pop_front();
+        }
         if self.q_vals.is_empty() {
             self.high = val;
             self.low = val;
